@@ -288,7 +288,7 @@ func accSlotInserts() []string {
 	for b := 1; b < 256; b++ {
 		out = append(out, string([]byte{byte(b)}))
 	}
-	return append(out, "\u00e9", "\u00a0", "\u2028", "\u0085", "\U000e0001", "\U0001f600", "\xe9t", "\xff\xfe", "\xc3", "\xed\xa0\x80", "\\u0000", "\\", "\\\"", "<&>")
+	return append(out, "\u00e9", "\u00a0", "\u2028", "\u0085", "\U000e0001", "\U0001f600", "\xe9t", "\xff\xfe", "\xc3", "\xed\xa0\x80", "\\u0000", "\\", "\\\"", "<&>", "\\u0026", "\\u003c", "\\u003e", "\\\\u0026")
 }
 
 func accJudge(w *run.W, prop, text string, b *impl.Built) {
